@@ -71,7 +71,7 @@ def np_ov_sum3(a, mode):
 
 def np_moment(a, order, axis=None, keepdims=False):
     a = np.asarray(a)
-    a = a.astype("c16") if a.dtype.kind == "c" else a.astype("f8")
+    a = a.astype("c16") if a.dtype.kind == "c" else (a if a.dtype.kind == "f" else a.astype("f8"))
     mu = a.mean(axis=axis, keepdims=True)
     return ((a - mu) ** order).mean(axis=axis, keepdims=keepdims)
 
